@@ -114,11 +114,12 @@ def main():
         print(f"{name:<8} confirmed={r.get('confirmed')!s:<5} tests_pass={r.get('tests_pass')!s:<5} "
               f"own-check exit={own.get('exit')} {own.get('s')}s keys={(own.get('keys') or ['-'])[:2]} "
               f"caught_by={r.get('caught_by')} {r.get('why', '')[:160]}", flush=True)
-        if a.keep and r.get("confirmed") and not a.kept:
+        if a.keep and r.get("confirmed"):
             dst = os.path.join(ROOT, "seeded", name)
             os.makedirs(dst, exist_ok=True)
             for f in ("patch.diff", "demo.py"):
-                shutil.copy(os.path.join(cdir, f), os.path.join(dst, f))
+                if os.path.abspath(cdir) != os.path.abspath(dst):
+                    shutil.copy(os.path.join(cdir, f), os.path.join(dst, f))
             meta = {}
             try:
                 meta = json.load(open(os.path.join(cdir, "meta.json")))
